@@ -70,11 +70,15 @@ func c12Gen(c *Ctx) *c12Scenario {
 	sc.OwnFields = sc.Kind != "union" && sc.Kind != "batchunion" && sc.Fill != "" && g.Bool()
 	var sb strings.Builder
 	win := ""
+	emptyFor, emptyWin := -1, ""
 	if sc.Kind == "batchjoin" || sc.Kind == "batchunion" {
 		win = "\n    |window().period(3s).every(3s).align()" // several batches per parent, so that one parent can be batches ahead
 		if g.Bool() {
 			// a node that forwards the batch piecewise (begin, points, end): the join's reader of this parent reassembles it
 			win += "\n    |where(lambda: \"v\" >= 0)"
+		} else if sc.Kind == "batchjoin" && g.Bool() {
+			// ... and filters: the first batches of one parent reach the join empty
+			emptyFor, emptyWin = g.Intn(np), win+fmt.Sprintf("\n    |where(lambda: \"s\" >= %d)", g.Range(2, 6))
 		}
 	}
 	for p := 0; p < np; p++ {
@@ -82,7 +86,11 @@ func c12Gen(c *Ctx) *c12Scenario {
 		if sc.Kind == "joinon" && p == 0 {
 			gb = "'g', 'h'" // the first parent is grouped more finely; the join is on the common dimension
 		}
-		fmt.Fprintf(&sb, "var %s = stream\n    |from().measurement('%s').groupBy(%s)%s\n", names[p], names[p], gb, win)
+		w := win
+		if p == emptyFor {
+			w = emptyWin
+		}
+		fmt.Fprintf(&sb, "var %s = stream\n    |from().measurement('%s').groupBy(%s)%s\n", names[p], names[p], gb, w)
 	}
 	var others []string
 	for p := 1; p < np; p++ {
@@ -196,6 +204,19 @@ func c12Run(c *Ctx, sc *c12Scenario, k int) ([]string, []string, Verdict) {
 			var ps []string
 			for _, p := range o.BCopy.Points {
 				ps = append(ps, c12Canon("", p.TimeNs, p.Fields))
+				if sc.Kind == "batchjoin" && !sc.OwnFields {
+					// whatever the pairing, a joined point carries the fields of every parent under its as() name: the
+					// parent's own values, or the configured fill where the parent had no point
+					for pi := range sc.Parents {
+						for _, f := range []string{".s", ".v"} {
+							if _, ok := p.Fields[[]string{"pa", "pb", "pc"}[pi]+f]; !ok {
+								v := Fail("join/fields", "a point of a joined batch (group %s, batch time %ds, point time %ds) lacks the field %s%s: it has %v (fill=%q)", o.BCopy.Group, o.BCopy.TMaxNs/1e9, p.TimeNs/1e9, []string{"pa", "pb", "pc"}[pi], f, simrt.Keys(p.Fields), sc.Fill)
+								v.Shape = map[string]interface{}{"kind": sc.Kind, "fill": sc.Fill}
+								return nil, nil, v
+							}
+						}
+					}
+				}
 			}
 			l := fmt.Sprintf("batch %s %s tmax=%d [%s]", o.BCopy.Name, o.BCopy.Group, o.BCopy.TMaxNs/1e9, strings.Join(ps, "; "))
 			lines = append(lines, l)
@@ -433,6 +454,7 @@ func init() {
 		ID:  "C12",
 		Run: runC12,
 		Rule: "case = 2-3 parent branches (separate from() per measurement, grouped by tag g, optionally windowed (3s tumbling) for a batch join, or the first parent grouped more finely and joined .on('g')) into join(as, tolerance 0/1s/5s, inner or fill null/0, parents optionally with a field of their own) or union (of points or of batches); outputs are compared with their measurement name; one writer per parent with a seeded non-decreasing time sequence (duplicates, gaps, silent or empty parents); " +
+			"(round 3) in batch joins one parent may be filtered so that its first batches reach the join empty, and every point of a joined batch must carry the fields of every parent under its as() name; " +
 			"the same workload is executed under 3 (quick) / 6 (thorough) independently seeded schedules, some of which starve a parent or the join; the task is then drained by TaskMaster.Close; " +
 			"non-trivial = at least one point was written; distinct = distinct (scenario, interleaving signatures of all schedules) tuples",
 		Real:        []string{"JoinNode (joinGroup, joinset), UnionNode, CircularQueue", "edge.multiConsumer (one reader goroutine per parent)", "WindowNode (batch join)", "TaskMaster ingest/fork/Close, FromNode, LogNode", "services/httpd write endpoint"},
